@@ -1813,7 +1813,7 @@ Proof.
   apply H; [reflexivity|split; [reflexivity|intros b []]|discriminate].
 Qed.
 
-(** ** oversized requests (finding F12): outside the class no client handle is ever poisoned *)
+(** ** oversized requests (finding F14): outside the class no client handle is ever poisoned *)
 Definition calls_kept (s s' : sys) : Prop :=
   forall i cr', get_call s' i = Some cr' -> exists cr, get_call s i = Some cr /\ cr_call cr' = cr_call cr.
 
